@@ -21,7 +21,8 @@ class C06(Check):
     level = "model_checking"
     rule = ("program set = corpus (fixtures + feature programs) + control-flow skeleton space (chains of <= D nested constructs from "
             "{if, if/else(then|else), while, for, try, catch, lambda} x 8 terminal actions x {0,1,2} locals per level x 6 stack-perturbing "
-            "prefixes x {0,1,3} parameters; D=2 quick, 3 thorough) + boundary programs; per function: exhaustive abstract exploration; "
+            "prefixes x {0,1,3} parameters; D=2 quick, 3 thorough) + opcode-prefix space (one statement per stack-affecting construct of the language - 47 of them, "
+            "covering every instruction the compiler emits inside a method - singly x {before, inside} a try x 4 raise kinds, and all ordered pairs) + boundary programs; per function: exhaustive abstract exploration; "
             "non-trivial = function with at least one branch or handler")
     assumptions = ["stack effects and operand layouts in vlib/bcv.py are written independently of the compiler's stack_effect table; opcode numbering is read from the real ByteCode enum",
                    "the property's 'exactly one value at each return' is checked as: depth >= frame base + 1 and no live handler (the number of locals in scope is not recoverable from bytecode)",
@@ -36,6 +37,8 @@ class C06(Check):
         depth = 3 if tier == "thorough" else 2
         for s in spaces.ctl_specs(depth):
             yield ("ctl", s)
+        for s in spaces.opcode_prefix_specs(True):
+            yield ("opc", s)
         for name, src in boundary():
             yield ("bound", name, src)
 
@@ -44,6 +47,8 @@ class C06(Check):
             return "corpus " + self.progs[spec[1]][0]
         if spec[0] == "ctl":
             return "ctl %s" % (spec[1],)
+        if spec[0] == "opc":
+            return "opcode-prefix %s: %s" % (spec[1], " ".join(spaces.OPCODE_PREFIXES[i] for i in spec[1][0])[:200])
         return "bound " + spec[1]
 
     def build(self, spec):
@@ -53,6 +58,8 @@ class C06(Check):
             return [dict(base, files=files, entry=entry)], None
         if spec[0] == "ctl":
             return [dict(base, src=spaces.ctl_program(*spec[1]))], None
+        if spec[0] == "opc":
+            return [dict(base, src=spaces.opcode_prefix_source(spec[1]))], None
         return [dict(base, src=spec[2])], None
 
     def judge(self, spec, ctx, rs):
@@ -67,6 +74,7 @@ class C06(Check):
         ops = r["ops"]
         modules, funs = bcv.parse_dump(dump)
         states = trans = 0
+        opseen = {}
         tables = {}
         branching = 0
         for fid, fn in funs.items():
@@ -74,6 +82,11 @@ class C06(Check):
             states += s
             trans += t
             tables[fid] = table
+            try:
+                for _pc, (nm, _a, _n) in bcv.decode(fn, ops).items():
+                    opseen[nm] = opseen.get(nm, 0) + 1
+            except bcv.Bad:
+                pass
             if t > s:
                 branching += 1
             if V:
@@ -90,7 +103,10 @@ class C06(Check):
             if (depth, handlers) not in st:
                 return Verdict(False, True, "trace", "runtime state at pc %d of %s is (depth %d, handlers %d) but the abstract machine computed %s" % (
                     pc, funs[fid]["name"], depth, handlers, sorted(st)))
-        return Verdict(True, branching > 0, "ok:" + str(r.get("class")), extra={"states": states, "transitions": trans, "functions": len(funs), "trace_points": points})
+        extra = {"states": states, "transitions": trans, "functions": len(funs), "trace_points": points}
+        for nm, c in opseen.items():
+            extra["op:" + nm] = c
+        return Verdict(True, branching > 0, "ok:" + str(r.get("class")), extra=extra)
 
 
 def boundary():
@@ -115,4 +131,16 @@ def main(tier):
     ex = merged["extra"]
     cov = {"states": int(ex.get("states", 0)), "transitions": int(ex.get("transitions", 0)),
            "traces_validated_against_impl": int(ex.get("trace_points", 0)), "functions_verified": int(ex.get("functions", 0))}
+    seen = {k[3:]: int(v) for k, v in ex.items() if k.startswith("op:")}
+    for k in list(merged["extra"]):
+        if k.startswith("op:"):
+            del merged["extra"][k]
+    import subprocess, json as _json
+    try:
+        allops = _json.loads(subprocess.run([R.BIN["checked"], "ops"], capture_output=True, text=True).stdout)
+    except Exception:
+        allops = []
+    cov["opcodes_verified"] = len(seen)
+    cov["opcodes_never_emitted_by_the_program_set"] = sorted(set(allops) - set(seen))
+    cov["opcode_instances"] = seen
     return report.finish(chk, tier, merged, t0, coverage_extra=cov)
